@@ -241,6 +241,17 @@ def judge_readonly(rec, kind, args, before, after, effects, root, base, case):
         if p not in before and not allowed_output(p.rstrip('/'), base_rel, args):
             rec.violation('read-only-command-creates-file-outside-output:' + kind, f'tally {" ".join(args[:3])}: created {p}', case)
             return
+    # a command that delivers its result on stdout (or to an --output path given as CWDREL) writes NO report into the budget: nothing at all is new there,
+    # not even an empty output folder
+    fmt = args[args.index('--format') + 1] if '--format' in args else None
+    no_report_here = kind in ('explain', 'discover', 'diag', 'inspect') or (kind == 'up' and (fmt in ('json', 'markdown', 'summary') or '--summary' in args))
+    if no_report_here:
+        rec.count('commands_that_write_no_report_checked_for_new_paths')
+        new = sorted(p for p in after if p not in before and not any(a.startswith('CWDREL:') and p.rstrip('/').startswith(a[7:]) for a in args))
+        if new:
+            rec.violation('command-without-a-report-creates-paths:' + kind, f'tally {" ".join(a for a in args if not a.startswith(("CWD", "ENV")))[:80]} delivers its result on stdout, '
+                          f'yet these paths are new in the budget: {new[:4]}', case)
+            return
     rec.count('effect_log_checks')
     for e in effects:
         for p in (e.get('path'), e.get('path2')):
@@ -582,6 +593,43 @@ def judge_init_sectionless_rules(rec, rnd, tmp, k, log):
     shutil.rmtree(root, ignore_errors=True)
 
 
+BROKEN_SETTINGS = [b'year: 2025\ndata_sources:\n\t- name: Card\n\t  file: data/card.csv\n', b'year: 2025\ntitle: "My budget\ndata_sources:\n  - name: Card\n    file: data/card.csv\n',
+                   b'year: 2025\ntitle: Caf\xe9 budget\ndata_sources:\n  - name: Card\n    file: data/card.csv\n    format: "{date:%Y-%m-%d},{description},{amount}"\n',
+                   b'year: 2025\ndata_sources: [\n', b'\xff\xfe\x00y\x00e\x00a\x00r\x00', b'- just\n- a list\n', b'year: 2025\r\ndata_sources:\r\n  - name: Card\r\n   file: data/card.csv\r\n',
+                   b'', b'# nothing but comments\n', b'year: 2025\nyear: 2024\n']
+
+
+def judge_init_unreadable_settings(rec, rnd, tmp, k, log):
+    """`tally init` in a folder whose settings.yaml exists but cannot be loaded right now (a tab in the indentation, an unclosed quote, another encoding, half a
+    file): it is an existing file all the same - kept byte for byte (it may gain appended lines), never replaced by the starter settings."""
+    root = os.path.join(tmp, 'us%d' % k)
+    os.makedirs(os.path.join(root, 'config'))
+    os.makedirs(os.path.join(root, 'data'))
+    content = BROKEN_SETTINGS[k % len(BROKEN_SETTINGS)]
+    with open(os.path.join(root, 'config', 'settings.yaml'), 'wb') as f:
+        f.write(content)
+    with open(os.path.join(root, 'data', 'card.csv'), 'w') as f:
+        f.write('Date,Description,Amount\n2025-01-03,NETFLIX.COM,15.99\n')
+    before = snapshot(root)
+    args = [['init'], ['init', root], ['init', '.']][k % 3]
+    p, effects = run_cmd(root, root, args, log)
+    after = snapshot(root)
+    rec.case()
+    rec.count('commands_run')
+    rec.count('init_runs')
+    rec.count('init_with_unreadable_settings')
+    case = {'kind': 'init-unreadable-settings', 'command': args[:1], 'exit': p.returncode, 'settings': content.decode('latin-1')}
+    now = read(root, os.path.join('config', 'settings.yaml')) if os.path.exists(os.path.join(root, 'config', 'settings.yaml')) else None
+    if now is None or not now.startswith(content):
+        rec.violation('init-replaces-existing-settings', f'tally {" ".join(args[:1])} on a folder whose settings.yaml holds {content[:60]!r}: afterwards the file '
+                      f'{"is gone" if now is None else "starts " + repr(now[:60])}', case)
+    for pth, h in before.items():
+        if after.get(pth) != h and not pth.endswith('settings.yaml'):
+            rec.violation('init-changes-existing-file', f'tally init beside an unreadable settings.yaml: {pth} ' + ('disappeared' if pth not in after else 'changed'), case)
+            break
+    shutil.rmtree(root, ignore_errors=True)
+
+
 def run(rec, shard, nshards, t):
     core.import_tally()
     rnd = core.rng_for('C20', shard)
@@ -599,6 +647,8 @@ def run(rec, shard, nshards, t):
             judge_symlinked_config_folder(rec, rnd, tmp, k, log)
             judge_symlinked_rules_csv(rec, rnd, tmp, k, log)
             judge_same_process_sequence(rec, rnd, tmp, k)
+        for k in range(shard, len(BROKEN_SETTINGS) * (1 if t == 'quick' else 3), nshards):
+            judge_init_unreadable_settings(rec, rnd, tmp, k, log)
         if shard == 0:
             rec.sample({'example_sequence': ['up', 'discover --format json', 'init', 'up --migrate -q'], 'monitors': ['sha256 tree snapshot', 'audit-hook effect log']})
     finally:
@@ -620,6 +670,7 @@ def replay(rec, case):
             judge_symlinked_config_folder(rec, rnd, tmp, k, log)
             judge_symlinked_rules_csv(rec, rnd, tmp, k, log)
             judge_same_process_sequence(rec, rnd, tmp, k)
+            judge_init_unreadable_settings(rec, rnd, tmp, k, log)
     finally:
         shutil.rmtree(tmp, ignore_errors=True)
         if os.path.exists(log):
